@@ -4,13 +4,12 @@ package main
 
 import (
 	"bytes"
-		"encoding/binary"
-		"errors"
+	"encoding/binary"
+	"errors"
 	"fmt"
 	"reflect"
 	"sort"
 
-	"github.com/cespare/xxhash/v2"
 	"github.com/NethermindEth/juno/blockchain"
 	"github.com/NethermindEth/juno/core"
 	"github.com/NethermindEth/juno/core/felt"
@@ -18,6 +17,7 @@ import (
 	"github.com/NethermindEth/juno/db/memory"
 	"github.com/NethermindEth/juno/l1/eth"
 	"github.com/NethermindEth/juno/pruner"
+	"github.com/cespare/xxhash/v2"
 	"verif/harness/lib"
 )
 
@@ -686,5 +686,3 @@ func decodeSnapshot(raw []byte) (*core.RunningEventFilter, error) {
 	}
 	return core.GetRunningEventFilter(tmp)
 }
-
-var _ = bytes.Equal
